@@ -340,6 +340,9 @@ func runCheck(prop, tier string, o opts) int {
 		for _, r := range x.inconclusive {
 			problems = append(problems, x.harness+": "+r)
 		}
+		if x.stoppedEarly {
+			problems = append(problems, fmt.Sprintf("%s: exploration ended early after %d counterexample candidates (only matters if none of them is confirmed natively)", x.harness, x.vioSeen))
+		}
 		if x.budgetHit {
 			problems = append(problems, fmt.Sprintf("%s: exploration budget exhausted after %d paths; the bound is not covered", x.harness, x.paths))
 		}
